@@ -16,7 +16,7 @@ use serde_json::{json, Value};
 pub struct C10;
 
 /// lint reports are part of the observation once the linter no longer crashes on them (finding F8)
-pub const WITH_LINT: bool = false;
+pub const WITH_LINT: bool = true;
 
 #[derive(Clone, Debug, Serialize, Deserialize)]
 pub enum Case {
